@@ -670,9 +670,130 @@ def register_lexer(R):
           notes="EFFECTIVELY BOUNDED: 10 concrete inputs covering every delimiter")
 
 
+# ---------------------------------------------------------------------------
+# ACCEPTANCE on fixed document shapes: the whole descent (_parse, _parse_tree, _parse_subtree, _parse_split, leaves) is
+# INLINED (no callee contract is used) on an abstract token stream whose token TYPES are fixed by the shape and whose
+# values are symbolic; the result must be the AST the property describes and no rejection may occur.
+# The carrier is Parser._parse under an alias key (same function, second contract): `<locals>` parts are skipped by the
+# extractor, so "Parser.<locals>._parse" resolves to Parser._parse.
+PARSE_ALIAS = f"{ASC}:Parser.<locals>._parse"
+
+# element language: "P" point | ("S", [alt, ...]) split, alt = [element, ...] | "C" colour marker | "M" comment
+DOCS = {
+    "run-then-split": ("AXON", [], ["P", "P", ("S", [["P"], ["P", "P"]])]),
+    "nested-split-then-more-alternatives": ("DENDRITE", [], ["P", ("S", [["P", ("S", [["P"], ["P"]])], ["P", "P"]])]),
+    "markers-and-empty-alternative": ("AXON", ["M", "C", "M"], ["M", "P", "C", "P", "M", ("S", [[], ["C", "P"], ["P", ("S", [["P"], []])]])]),
+}
+
+
+def doc_tokens_and_reference(doc):
+    """tokens [(TokenType name, literal | None)] and the reference AST [(kind, parent_no | None, first_token | label)] in
+    document order (node 0 = ROOT), both derived from the document description only (independent of the parser)."""
+    label, pre, elems = doc
+    toks, nodes = [], [("ROOT", None, None)]
+
+    def emit(t, lit=None):
+        toks.append((t, lit))
+        return len(toks) - 1
+
+    def marker(e, parent):
+        if e == "M":
+            emit("COMMENT")
+            nodes.append(("COMMENT", None, None))
+        else:
+            emit("BRACKET_LEFT"), emit("LITERAL", "COLOR"), emit("LITERAL", "RED"), emit("BRACKET_RIGHT")
+            nodes.append(("COLOR", None, None))
+
+    def branch(elems, tip):
+        for e in elems:
+            if e == "P":
+                emit("BRACKET_LEFT")
+                i = emit("FLOAT")
+                emit("FLOAT"), emit("FLOAT"), emit("FLOAT"), emit("BRACKET_RIGHT")
+                nodes.append(("NODE", tip, i))  # parent: preceding point of the branch, or the point before the enclosing split
+                tip = len(nodes) - 1
+            elif isinstance(e, tuple):
+                emit("BRACKET_LEFT")
+                for k, alt in enumerate(e[1]):
+                    if k:
+                        emit("OR")
+                    branch(alt, tip)
+                emit("BRACKET_RIGHT")
+            else:
+                marker(e, tip)
+
+    for e in pre[:1]:
+        marker(e, 0)  # a comment before the document's open bracket
+    emit("BRACKET_LEFT")
+    for e in pre[1:]:
+        marker(e, 0)
+    emit("BRACKET_LEFT"), emit("LITERAL", label), emit("BRACKET_RIGHT")
+    nodes.append(("TREE", 0, label))
+    branch(elems, len(nodes) - 1)
+    emit("BRACKET_RIGHT")
+    return toks, nodes
+
+
+def register_acceptance(R):
+    def setup(doc):
+        def f(S):
+            me = parser_obj(S)
+            toks, nodes = doc_tokens_and_reference(doc)
+            S.eng.ghost["c15"]["no_lexer_error"] = True  # the stream of a well-formed document: every read succeeds
+            S.eng.ghost["c15"]["concrete"] = toks  # token types and literal classes are fixed by the shape (values stay symbolic)
+            me.fields["lexer"].fields["g_cur"] = 0
+            me.fields["next_token"] = Sym(z3.IntVal(1 if toks else 0), "oref")
+            S.assume(NTOK == len(toks))
+            for i, (t, lit) in enumerate(toks):
+                S.assume(TTYPE(i) == T(t))
+                if lit is not None:
+                    S.assume(TUP(i) == X.str_code(lit))
+            S.assume(cur({"self": me}) == 0)
+            S.assume(nxt({"self": me}) == tokref(z3.IntVal(0)))
+            S.assume(z3.And(H({"self": me}, "n") >= 0, H({"self": me}, "clock") >= 0))
+            return dict(self=me, __ghost__=dict(doc=doc))
+
+        return f
+
+    def ast_ok(E, v, o):
+        toks, nodes = doc_tokens_and_reference(E.spec_extra["doc"])
+        n0 = H(o, "n")
+        ref = lambda k: n0 + 1 + k
+        conj = [H(v, "n") == n0 + len(nodes), to_z3(v["result"], "ref") == ref(0), cur(v) == len(toks)]
+        for k, (kind, par, info) in enumerate(nodes):
+            conj.append(z3.Select(H(v, "kind"), ref(k)) == X.at(kind))
+            if kind == "NODE":
+                conj.append(z3.Select(H(v, "par"), ref(k)) == ref(par))
+                for f, d in zip(X.HEAP_REAL, range(4)):
+                    conj.append(z3.Select(H(v, f), ref(k)) == TVAL(info + d))
+            elif kind == "TREE":
+                conj.append(z3.Select(H(v, "par"), ref(k)) == ref(0))
+                conj.append(z3.Select(H(v, "label"), ref(k)) == X.str_code(info))
+            elif kind == "ROOT":
+                conj.append(z3.Select(H(v, "par"), ref(k)) == 0)
+        # children order = document order: attach stamps of the children of one parent increase with the node number
+        pts = [(k, par) for k, (kind, par, _) in enumerate(nodes) if kind == "NODE"]
+        for (a, pa) in pts:
+            for (b, pb) in pts:
+                if a < b and pa == pb:
+                    conj.append(z3.Select(H(v, "ord"), ref(a)) < z3.Select(H(v, "ord"), ref(b)))
+        return z3.And(*conj)
+
+    never = lambda name: (f"well-formed-document-is-not-rejected-with-{name}", lambda E, v, o: False)
+    R.add(PARSE_ALIAS, prop="C15", variants={k: setup(d) for k, d in DOCS.items()},
+          raises={"TokenTypeError": never("TokenTypeError"), "LiteralTokenError": never("LiteralTokenError"),
+                  "AssertionTokenTypeError": never("AssertionTokenTypeError"), "ValueError": never("ValueError")},
+          ensures=[("AST-is-the-one-the-document-describes", ast_ok), WF, FRAME],
+          options=dict(registry={}, allow_symbolic_unroll=True),
+          notes="BOUNDED SHAPES: three fixed documents (run+split, nested split followed by further alternatives, markers + empty alternatives) "
+                "with symbolic numbers; the descent is inlined completely (registry={} switches the modular rule off for this contract); "
+                "expected AST from an independent reference in this file")
+
+
 def register(R):
     register_leaves(R)
     register_core(R)
+    register_acceptance(R)
     register_walk(R)
     register_astnode(R)
     register_lexer(R)
